@@ -17,7 +17,7 @@ import ast
 
 from rsx.access import access
 from .common import (AnalysisError, Finding, RuleResult, MustFlow, ntext, walk_no_nested,
-                     body_stmts, is_self_attr, call_name)
+                     body_stmts, is_self_attr, call_name, expand_locals)
 
 RULE = 'R09'
 TEXT = ('uncertainty sets are captured as the dual of exactly the given constraints after a '
@@ -197,23 +197,35 @@ def run(repo):
             for n in ast.walk(node):
                 if isinstance(n, ast.Call) and isinstance(n.func, ast.Attribute) and n.func.attr == 'le_to_rc':
                     recv = ntext(n.func.value)
+                    own = {('cond', True, recv + '.support'), ('cond', False, 'not %s.support' % recv),
+                           ('cond', True, '%s.support is not None' % recv),
+                           ('cond', False, '%s.support is None' % recv)}
+                    none = {('cond', False, recv + '.support'), ('cond', True, 'not %s.support' % recv),
+                            ('cond', True, '%s.support is None' % recv),
+                            ('cond', False, '%s.support is not None' % recv)}
                     if not n.args and not n.keywords:
-                        if ('cond', True, recv + '.support') not in state and \
-                                ('cond', False, 'not %s.support' % recv) not in state and \
-                                ('cond', True, '%s.support is not None' % recv) not in state:
-                            self.bad.append((n, 'le_to_rc() is called without a set on a path that '
-                                                'has not established %s.support' % recv))
+                        cases = [(None, frozenset())]
                     else:
-                        a = n.args[0] if n.args else n.keywords[0].value
-                        if ntext(a) != 'self.obj_support':
+                        a = expand_locals(dm.node, n.args[0] if n.args else n.keywords[0].value)
+                        if isinstance(a, ast.IfExp):
+                            # le_to_rc(None if constr.support else self.obj_support): one case per arm
+                            cases = [(a.body, frozenset({('cond', True, ntext(a.test))})),
+                                     (a.orelse, frozenset({('cond', False, ntext(a.test))}))]
+                        else:
+                            cases = [(a, frozenset())]
+                    for val, extra in cases:
+                        st = state | extra
+                        if val is None or (isinstance(val, ast.Constant) and val.value is None):
+                            if not (own & st):
+                                self.bad.append((n, 'le_to_rc() is called without a set on a path that '
+                                                    'has not established %s.support' % recv))
+                            continue
+                        if ntext(val) != 'self.obj_support':
                             self.bad.append((n, 'le_to_rc(%s): the fallback set is not self.obj_support'
-                                             % ntext(a)))
+                                             % ntext(val)))
                         # le_to_rc prefers the set it is given over the constraint's own one, so the
                         # default set may only be passed once the constraint is known to have none
-                        if ('cond', False, recv + '.support') not in state and \
-                                ('cond', True, 'not %s.support' % recv) not in state and \
-                                ('cond', True, '%s.support is None' % recv) not in state and \
-                                ('cond', False, '%s.support is not None' % recv) not in state:
+                        if not (none & st):
                             self.bad.append((n, 'le_to_rc(self.obj_support) is reachable for a constraint '
                                                 'that has its own set (%s.support): the objective\'s default '
                                                 'set would override the set given to forall()' % recv))
